@@ -142,6 +142,11 @@ func (l *EventLog) Emit(ev M) {
 	}
 	l.w.Write(b)
 	l.w.WriteByte('\n')
+	// the scenario that is running must be identifiable if the process dies in it
+	switch ev["ev"] {
+	case "reset", "begin", "ret":
+		l.w.Flush()
+	}
 }
 
 func (l *EventLog) Flush() {
